@@ -154,7 +154,7 @@ impl Prop for C24 {
     fn cases(&self, tier: Tier) -> u64 {
         let n = c24_table::NAMES.len() as u64;
         match tier {
-            Tier::Quick => n * 256,
+            Tier::Quick => n * 768,
             Tier::Thorough => n * 16384,
         }
     }
